@@ -171,25 +171,40 @@ pub fn fixed_grams() -> Vec<Gram> {
     ]
 }
 
+/// parol's own left-recursion test. On (hidden) left-recursive grammars — which
+/// `check_and_transform_grammar` rejects before the LL(k) stage — the real `first_k`/`follow_k`
+/// iterations need not terminate (observed: e.g. `0:;1:t5;2:;2:n1;2:n3,t6,n3;3:n2,t5` runs for
+/// minutes; the Lean model answers `fuel-exhausted` there), so such grammars are not generated.
+fn safe_to_run(g: &Gram) -> bool {
+    if !g.prods.iter().any(|p| p.0 == g.start) {
+        return false; // `detect_left_recursive_non_terminals` panics (C11-P1)
+    }
+    let cfg = g.to_cfg();
+    std::panic::catch_unwind(|| parol::analysis::detect_left_recursive_non_terminals(&cfg).is_empty()).unwrap_or(false)
+}
+
 pub fn generate(seed: u64, thorough: bool) -> Vec<String> {
     let mut rng = Rng::new(seed ^ 0xC01C);
     let mut out = vec![];
     let mut seen = std::collections::HashSet::new();
-    let mut push = |g: &Gram, k: usize, out: &mut Vec<String>| {
-        let line = format!("gen-tables {} {}", g.show(), k);
-        if seen.insert(line.clone()) {
-            out.push(line);
-        }
-    };
     for g in fixed_grams() {
         let g = canon_terms(&g);
+        if !safe_to_run(&g) {
+            continue;
+        }
         for k in 0..=4 {
-            push(&g, k, &mut out);
+            let line = format!("gen-tables {} {}", g.show(), k);
+            if seen.insert(line.clone()) {
+                out.push(line);
+            }
         }
     }
-    let n = if thorough { 12000 } else { 1200 };
-    for i in 0..n {
-        let g = match i % 4 {
+    // random grammars: every accepted one is kept, rejected ones up to a quarter of the cases
+    let want = if thorough { 12000 } else { 1000 };
+    let (mut accepted, mut rejected, mut tries) = (0usize, 0usize, 0usize);
+    while accepted < want && tries < want * 40 {
+        tries += 1;
+        let g = match tries % 4 {
             // grammars of the theorem's class (productive, reachable, no left recursion)
             0 => crate::c05::random_ll_gram(&mut rng, 5, 3),
             1 => random_class_gram(&mut rng, 5, 3, 4),
@@ -197,18 +212,33 @@ pub fn generate(seed: u64, thorough: bool) -> Vec<String> {
                 &mut rng,
                 &GenCfg { max_nts: 4, max_terms: 3, max_prods_per_nt: 3, max_rhs: 3, nt_bias: 4, allow_undefined: false },
             ),
-            // anything (error paths: left recursion, non-productive, undefined non-terminals)
+            // anything without left recursion (non-productive / unreachable / undefined non-terminals)
             _ => random_gram(
                 &mut rng,
-                &GenCfg { max_nts: 4, max_terms: 3, max_prods_per_nt: 3, max_rhs: 3, nt_bias: 4, allow_undefined: i % 8 == 7 },
+                &GenCfg { max_nts: 4, max_terms: 3, max_prods_per_nt: 3, max_rhs: 3, nt_bias: 3, allow_undefined: tries % 8 == 7 },
             ),
         };
-        if g.prods.is_empty() {
+        if g.prods.is_empty() || !safe_to_run(&g) {
             continue;
         }
         let g = canon_terms(&g);
-        let k = if thorough && i % 5 == 4 { rng.range(1, 5) } else { rng.range(1, 3) };
-        push(&g, k, &mut out);
+        let k = if thorough && tries % 5 == 4 { rng.range(1, 5) } else { rng.range(1, 3) };
+        let line = format!("gen-tables {} {}", g.show(), k);
+        if seen.contains(&line) {
+            continue;
+        }
+        let reply = std::panic::catch_unwind(|| real_tables(&g, k)).ok().flatten();
+        match reply {
+            Some(r) if !r.starts_with("err") => accepted += 1,
+            _ => {
+                if rejected * 3 >= accepted + 30 {
+                    continue;
+                }
+                rejected += 1;
+            }
+        }
+        seen.insert(line.clone());
+        out.push(line);
     }
     out
 }
